@@ -55,6 +55,19 @@ func (e *Engine) strID(st *State, s []*Term) *Term {
 			return BVConst(0, 64)
 		}
 	}
+	// string(b) of a byte slice: identified by the source bytes, so that two
+	// conversions of the same bytes (at the same memory state) are the same key
+	reg := s[0]
+	if reg.op == "ite" && reg.args[1].IsConst() && reg.args[1].val.Sign() == 0 {
+		reg = reg.args[2]
+	}
+	if reg.IsConst() && s[1].IsConst() && s[1].val.Sign() == 0 {
+		if pv, ok := e.strProv[reg.val.Uint64()]; ok && pv.n == s[2] {
+			id := UF(fmt.Sprintf("strid.src.m%d", pv.mem), 64, pv.r, pv.o, pv.n)
+			st.assume(Eq(Eq(s[2], BVConst(0, IntSort)), Eq(id, BVConst(0, 64))))
+			return id
+		}
+	}
 	m := e.mem(st, byteMemName, elemKS, 8)
 	id := UF(fmt.Sprintf("strid.m%d", m.id), 64, s[0], s[1], s[2])
 	// the empty string has identity 0
